@@ -12,6 +12,7 @@
 //	F  JSON and stack-item decoders of conditions on generated trees            [tree decoders]
 //	G  Signer.DecodeBinary on hand-assembled encodings                          [signer decoder]
 //	H  ScopesFromByte on all 256 bytes (one case)                               [scope byte validity]
+//	V  (*Blockchain).VerifyWitness: verification scripts / contracts / invocation scripts that check witnesses [layer iii]
 package main
 
 import (
@@ -48,7 +49,8 @@ func main() {
 	nE := pick(chainQuick, chainThorough)
 	nF := pick(3000, 60000)
 	nG := pick(4000, 100000)
-	total := nA + nB + nC + nD + nE + nF + nG + 1
+	nV := pick(verifQuick, verifThorough)
+	total := nA + nB + nC + nD + nE + nF + nG + 1 + nV
 	if f.Cases > 0 && f.Cases < total {
 		total = f.Cases
 	}
@@ -84,11 +86,27 @@ func main() {
 			runMatchCase(o, k, ctxs, envs, sampledTrees(r, mu, treesPerCase))
 			o.Count("cases:B-match-sampled")
 		case k < nA+nB+nC:
-			runDirectCase(o, k, r, du)
+			fixed := k - (nA + nB) // the first four cells of the block are the invocation stack limit
+			if fixed > 3 {
+				fixed = -1
+			}
+			runDirectCase(o, k, r, du, fixed)
 			o.Count("cases:C-direct")
 		case k < nA+nB+nC+nD:
 			runDecodeCase(o, k, r, du)
 			o.Count("cases:D-decode")
+		case k >= nA+nB+nC+nD+nE+nF+nG+1:
+			if ch == nil {
+				var err error
+				ch, err = newChainState()
+				if err != nil {
+					fmt.Fprintln(os.Stderr, "chain setup failed:", err)
+					o.Close()
+					os.Exit(3)
+				}
+			}
+			runVerifCase(o, k, r, ch)
+			o.Count("cases:V-verification")
 		case k >= nA+nB+nC+nD+nE+nF+nG:
 			o.Case(k)
 			for b := 0; b < 256; b++ {
